@@ -649,6 +649,10 @@ func (cv *Conv) Exec(e *Edge) (divs []evid.Div, fatal error) {
 		prop := "C03"
 		all := strings.Join(expSeq, ",") + "|" + strings.Join(gotSeq, ",")
 		switch {
+		case strings.Join(expSeq, ",") == strings.Join(gotSeq, ",") && strings.Contains(fmt.Sprint(gotData), "end:eof") && !strings.Contains(fmt.Sprint(expData), "end:eof"):
+			// only the way the transfer ended differs, and the backend saw end-of-file
+			// where the specification says an error: an incomplete message passed off as complete
+			prop = "C07"
 		case closing && len(gotSeq) >= len(expSeq) && strings.HasPrefix(strings.Join(gotSeq, ",")+",", strings.Join(expSeq, ",")+","):
 			prop = "C08"
 		case strings.Count(strings.Join(expSeq, ","), "Logout") != strings.Count(strings.Join(gotSeq, ","), "Logout"):
@@ -762,10 +766,18 @@ func (cv *Conv) Exec(e *Edge) (divs []evid.Div, fatal error) {
 		if e.Lbl.Cmd.C == "BDAT" {
 			prop = "C05"
 		}
+		var also []evid.Div
 		for i := range divs {
+			if strings.HasPrefix(divs[i].Key, "replies:") {
+				c := divs[i]
+				c.Prop = "C04" // "exactly one reply per command" is broken whatever caused it
+				c.Key = "extra-replies:" + c.Key
+				also = append(also, c)
+			}
 			divs[i].Prop = prop
 			divs[i].Key = "desync:" + divs[i].Key
 		}
+		divs = append(divs, also...)
 	}
 	if e.Lbl.Cmd.C == "DATACUT" || e.Lbl.Cmd.C == "BDATCUT" {
 		for i := range divs {
